@@ -48,6 +48,9 @@ def main():
         ('Planar2DCode', (3, 2), 'XZZX', None, lambda c, e, p: BeliefPropagationOSDDecoder(c, e, p, max_bp_iter=10, osd_order=0), 'BP-OSD', (0.1, 0.1, 0.8), 0.2),
         ('Toric3DCode', (2, 2, 2), None, None, lambda c, e, p: BeliefPropagationOSDDecoder(c, e, p, max_bp_iter=10, osd_order=0), 'BP-OSD', (0.25, 0.25, 0.5), 0.1),
         ('Toric2DCode', (2, 3), None, None, lambda c, e, p: UnionFindDecoder(c, e, p), 'UnionFind', (0.5, 0.0, 0.5), 0.1),
+        # both ends of the rate range: every trial fails (X on every qubit is a logical operator here) / no trial fails
+        ('RotatedPlanar2DCode', (3, 3), None, None, lambda c, e, p: MatchingDecoder(c, e, p), 'Matching', (1.0, 0.0, 0.0), 1.0),
+        ('Planar2DCode', (2, 2), None, None, lambda c, e, p: MatchingDecoder(c, e, p), 'Matching', (1 / 3, 1 / 3, 1 / 3), 0.0),
     ]
     ntr = 40 if tier == 'quick' else 300
     for (cls, size, dn, ax, mk, dname, r, p) in setups:
@@ -78,10 +81,14 @@ def main():
                 left -= k
             sim = DirectSimulation(code, em, mk(code, em, p), p, verbose=False, rng=np.random.default_rng(sd))
             lens = []
+            partials = []
             for k in ks:
                 sim.run(k)
                 rr = sim.results
                 lens.append([int(rr['n_runs']), len(rr['effective_error']), len(rr['success']), len(rr['codespace'])])
+                g_ = sim.get_results()       # the summary asked for after every run(k) call, not only at the end
+                partials.append([int(g_['n_runs']), int(g_['n_fail']), int(g_['n_success']), float(g_['p_est']),
+                                 int(sum(1 for s_ in rr['success'] if not s_))])
             gr = sim.get_results()
             sim2 = DirectSimulation(code, em, mk(code, em, p), p, verbose=False, rng=np.random.default_rng(sd))
             sim2.run(ntr)
@@ -90,7 +97,7 @@ def main():
         res['records'].append({'tag': tag, 'cls': cls, 'size': list(size), 'deformation': dn, 'axis': ax, 'decoder': dname, 'seed': sd,
                                'trials': recs})
         same = lambda a, b: [np.asarray(x).tolist() for x in a] == [np.asarray(x).tolist() for x in b]
-        res['book'].append({'tag': tag, 'decoder': dname, 'ks': ks, 'lens': lens,
+        res['book'].append({'tag': tag, 'decoder': dname, 'ks': ks, 'lens': lens, 'partials': partials,
                             'n_fail': int(gr['n_fail']), 'n_runs': int(gr['n_runs']), 'n_success': int(gr['n_success']), 'p_est': float(gr['p_est']),
                             'p_se': float(gr['p_se']),
                             'sim_eff': [np.asarray(x).astype(int).tolist() for x in sim.results['effective_error']],
